@@ -151,7 +151,16 @@ def main():
                 ev["qn"] = fn.fn_reference().qualified_name
             elif kind == "deps":
                 fn = getattr(mod, op["name"])
-                g = fn.dependencies()
+                if op.get("how") == "via_verbose":      # the collapsed graph obtained from a verbose one that has been rendered
+                    g0 = fn.dependencies(verbose=True)
+                    g0.df()
+                    g = g0.with_verbose(False)
+                elif op.get("how") == "via_filter":     # ... from a graph with a label filter (labels only: the edges are the same)
+                    g0 = fn.dependencies()
+                    g0.df()
+                    g = g0.with_label_filter(lambda label: label.upper()).with_verbose(False)
+                else:
+                    g = fn.dependencies()
                 ev["trans"] = sorted(x.qualified_name_without_version.split(":")[-1] for x in g.transitive_memento_fn_dependencies())
                 ev["direct"] = sorted(x.qualified_name_without_version.split(":")[-1] for x in g.direct_memento_fn_dependencies())
                 df = g.df()
